@@ -123,6 +123,9 @@ func c11ScalarText(t *rapid.T, k Kind, base int) string {
 		if rapid.IntRange(0, 9).Draw(t, "rndFloat") == 0 {
 			return rapid.StringN(0, 6, 12).Draw(t, "rnd")
 		}
+		if rapid.IntRange(0, 5).Draw(t, "midpoint") == 0 {
+			return FloatMidpointText(t)
+		}
 		return rapid.SampledFrom(c11FloatPool).Draw(t, "float")
 	case KDuration:
 		return rapid.SampledFrom(c11DurPool).Draw(t, "dur")
